@@ -900,6 +900,23 @@ def input_gradient(rec, k, name, X, Y, sp, det, white, st, budget=0.0):
                       mechanism=_m(name, "k_and_deriv(X)-vs-(X,X)"), detail=det)
         except _Fail:
             st["x"] = False
+    # form of the data: integer-valued samples stored as integers must give what the same values stored as floats give
+    # (added after a seeded change that allocated the gradient buffer with the dtype of the samples)
+    try:
+        Xi = np.rint(2 * X[: min(n, 7)]).astype(np.int64)
+        Yi = np.rint(2 * Y[: min(m, 5)]).astype(np.int64)
+        if np.all(X > 0):
+            Xi, Yi = np.maximum(Xi, 1), np.maximum(Yi, 1)
+        kf, dkf = k.k_and_deriv(Xi.astype(float), Yi.astype(float))
+        ki, dki = k.k_and_deriv(Xi, Yi)
+        kf, dkf, ki, dki = (np.asarray(a, dtype=float) for a in (kf, dkf, ki, dki))
+        if np.all(np.isfinite(kf)) and np.all(np.isfinite(dkf)):
+            gs_i = max(float(np.max(np.abs(dkf))) if dkf.size else 0.0, 1e-300)
+            ks_i = max(float(np.max(np.abs(kf))) if kf.size else 0.0, 1e-300)
+            rec.check(_on("integer_samples", name), max(_rel(ki, kf, ks_i), _rel(dki, dkf, gs_i)), TOL_EXACT,
+                      mechanism=_m(name, "input-gradient"), detail=dict(det, form="int64 samples"))
+    except Exception as e:  # noqa: BLE001 - a kernel that refuses integer arrays is not judged here
+        rec.note(_on("integer_samples_not_evaluated", name), repr(e)[:120])
     conclusive, nonzero, wself = 0, False, 0.0
     for i in range(d):
         def fd(h):
